@@ -271,6 +271,14 @@ func Go(site string, f func()) {
 		}()
 		f()
 	}()
+	// The new goroutine may run before its creator continues: a scheduling point for the creator (option 0 of the
+	// scheduler keeps the creator running, as before).
+	s.mu.Lock()
+	parent := s.byGoid[id]
+	s.mu.Unlock()
+	if parent != nil {
+		s.park(parent, "spawn:"+site, gParked)
+	}
 }
 
 // ---- channel helpers -------------------------------------------------------
